@@ -751,7 +751,15 @@ pub fn gen_stream_iv(t: &mut Tape<'_>, kind: StreamKind, bs: usize, c: &dyn Ciph
             let a = t.u32() as u128;
             let j = t.idx(4) as u128;
             if has_dec && class >= 128 {
-                let s0 = if class >= 192 { u128::MAX - j } else { ((a | 1) << 64) | (u64::MAX as u128 - j) };
+                // s_0 just below 2^128; low 64-bit word just below 2^64 (the sum carries between the words
+                // early in the stream); low word just above 0 (it does so just before the end of the keystream)
+                let s0 = if class >= 192 {
+                    u128::MAX - j
+                } else if class >= 150 {
+                    ((a | 1) << 64) | (u64::MAX as u128 - j)
+                } else {
+                    ((a | 1) << 64) | j
+                };
                 let mut b = s0.to_le_bytes().to_vec();
                 c.dec(&mut b);
                 iv = b;
